@@ -54,7 +54,7 @@ pub fn run(ctx: &Ctx) -> Outcome {
          hash of (scenario, batch or query)",
     );
     out.assume("the shard id is the one the ingester itself asks the catalog about; DataFusion 44 is the SQL reference; Int64 timestamps (the dual-write path refuses other types)");
-    let scenarios: u64 = if ctx.thorough { 14 * 500 } else { 160 };
+    let scenarios: u64 = if ctx.thorough { 14 * 2500 } else { 1600 };
     let rt = tokio::runtime::Builder::new_current_thread().enable_all().build().unwrap();
     rt.block_on(async {
         for idx in ctx.my_cases(scenarios) {
@@ -130,7 +130,20 @@ async fn scenario(ctx: &Ctx, out: &mut Outcome, rng: &mut Rng, idx: u64) {
             rows_.push(d);
         }
         let before: BTreeSet<String> = local.list_chunks().await.unwrap_or_default().into_iter().map(|c| c.chunk_path).collect();
+        // now and then the catalog refuses one of the two split-state lookups of this write (the first or the
+        // second): the write may then be refused - but if it is accepted, its rows must have been copied
+        let lookup_fault = rng.chance(1, 5);
+        if lookup_fault {
+            let next = ctl.request_count(Some("ing")) + rng.below(2);
+            ctl.set_faults(vec![crate::sim::Fault { actor: Some("ing".into()), index: next, mode: crate::sim::FaultMode::Before }]);
+            out.count("routing.writes_with_a_refused_split_lookup", 1);
+        }
         let r = ing.write(rows::make_batch(SchemaKind::B, &rows_)).await;
+        ctl.set_faults(vec![]);
+        if lookup_fault && r.is_err() {
+            out.count("routing.writes_refused_after_a_failed_lookup", 1);
+            continue;
+        }
         out.eval();
         out.count("routing.writes", 1);
         let asked = ctl.events().iter().rev().find(|e| e.call && e.op == "META:get_split_state").map(|e| e.path.clone());
